@@ -23,7 +23,7 @@ def run(ctx):
     ctx.tlc_ok("ContainerProto MC with crash in every state", r)
     r = ctx.tlc("TracerCrash", workers=2, timeout=300)
     ctx.tlc_ok("TracerCrash MC", r)
-    g = ctx.tlc("Crash_Gen", cfg="CONSTANTS Afters = {%s}\nINIT Init\nNEXT Next\n" % ctx.pick("0", "0, 5, 50"), timeout=300, count=False)
+    g = ctx.tlc("Crash_Gen", cfg="CONSTANTS Afters = {%s}\nINIT Init\nNEXT Next\n" % ctx.pick("0", "0, 20"), timeout=300, count=False)
     ctx.tlc_ok("Crash_Gen", g)
     cases = ctx.read_ndjson(os.path.join(g.dir, "cases.ndjson"))
     cases.sort(key=lambda c: json.dumps(c, sort_keys=True))
@@ -37,7 +37,7 @@ def run(ctx):
                 seen.add(k)
                 keep.append(c)
         cases = sorted(keep, key=lambda c: json.dumps(c, sort_keys=True))
-    reps = ctx.pick(1, 3)
+    reps = ctx.pick(1, 2)
     cases = [dict(c, id=i + 1) for i, c in enumerate(cases * reps)]
     ctx.log("crash cases: %d" % len(cases))
     obs = contlib.run_sharded(ctx, "c16", cases, shards=6)
@@ -69,6 +69,9 @@ def run(ctx):
                           {k: o[k] for k in ("case", "alive", "initpid", "prog_before")})
         else:
             drift += 1
+            os.makedirs(os.path.join(vlib.VERIF, "replays"), exist_ok=True)
+            json.dump({"case": c, "result": x, "trace": [t for t in ptraces if t["id"] == x["id"]][0]},
+                      open(os.path.join(vlib.VERIF, "replays", "C16-drift-%d-%d.json" % (ctx.seed, x["id"])), "w"))
             if drift <= 5:
                 ctx.note("DRIFT crash case %s: controller session matched %d of %d events" % (json.dumps(c), x["mark"], x["total"]))
     ctx.traces += len(obs)
